@@ -30,9 +30,7 @@ class InstantiatedDeclaration(parser.ForwardDeclaration):
 
     def to_cpp(self):
         """Generate the C++ code for wrapping."""
-        instantiated_names = [
-            inst.qualified_name() for inst in self.instantiations
-        ]
+        instantiated_names = [inst.to_cpp() for inst in self.instantiations]
         name = "{}<{}>".format(self.original.name,
                                ",".join(instantiated_names))
         namespaces_name = self.namespaces()
